@@ -679,6 +679,9 @@ def run_check(prop, opts):
     if only:
         stages = [s_ for s_ in stages if s_['flavour'] in only.split(',')]
     evid_path = os.path.join(VERIF, 'evidence', prop + '.json')
+    if os.path.realpath(REPO) != '/repo':
+        # development runs against a scratch copy (VERIF_REPO=...) must not overwrite the evidence of /repo
+        evid_path = os.path.join(CACHE, 'evidence_scratch', re.sub(r'[^A-Za-z0-9_.-]+', '_', os.path.realpath(REPO)), prop + '.json')
     os.makedirs(os.path.dirname(evid_path), exist_ok=True)
     b = Builder()
     bins = {}
